@@ -32,7 +32,7 @@ META = {
     "design_ref": "7/C61",
     "shards": {"quick": 2, "thorough": 16},
     "budget_s": {"quick": 45, "thorough": 300},
-    "min_evals": {"quick": 2000, "thorough": 60000},
+    "min_evals": {"quick": 2000, "thorough": 40000},
     "deciding": ["opt.params", "opt.accumulators", "opt.cost_prestep", "opt.untouched", "spsa.update", "rotosolve.substep_min", "rotoselect.step"],
     "rule": "case = one optimizer history (class, hyper-parameters, objective family, argument shapes, step kinds); distinct = fingerprint of "
             "those; non-trivial = at least 3 steps (so accumulator state matters) and, for the gradient family, a non-zero gradient at every step",
@@ -708,7 +708,7 @@ def run(ctx):
     warnings.filterwarnings("ignore")
     for nm in ("QNSPSAOptimizer", "ShotAdaptiveOptimizer", "RiemannianGradientOptimizer", "AdaptiveOptimizer"):
         ctx.uncovered(nm, "needs shot-based / circuit-growing QNodes; not driven by this check")
-    N = ctx.n(700, 60000)
+    N = ctx.n(700, 32000)
     dev_cache = {}
     indices = range(ctx.shard, N * ctx.nshards, ctx.nshards)
     if ctx.only_case is not None:
